@@ -871,7 +871,7 @@ Proof.
     apply JJ_maybe_delete, JJ_lastProcessed, HJ2.
   - destruct (update_last_cmid _ _ _ _ sv) as [sv1|] eqn:Hu; [|discriminate].
     intros [= <- <-]. split; [constructor|]. intros _. eapply JJ_update_last_cmid; eauto.
-  - destruct parsed; intros [= <- <-]; (split; [constructor|intros _]); [apply JJ_config|]; exact HJ.
+  - destruct (config_in_force _ _ _); intros [= <- <-]; (split; [constructor|intros _]); [apply JJ_config|]; exact HJ.
 Qed.
 
 Print Assumptions entry_sites.
